@@ -81,7 +81,9 @@ func (s *Modifier) ModifyRequest(req *http.Request) error {
 // will be a 404. ModifyResponse will return a 404 for any path that is defined in s.explictPaths
 // and that does not exist locally, even if that file does exist in s.rootPath.
 func (s *Modifier) ModifyResponse(res *http.Response) error {
-	reqpth := filepath.Clean(res.Request.URL.Path)
+	// Clean the request path as an absolute path so that it stays rooted at
+	// s.rootPath even if another modifier left it without a leading slash.
+	reqpth := filepath.Clean(string(filepath.Separator) + res.Request.URL.Path)
 	fpth := filepath.Join(s.rootPath, reqpth)
 
 	if mapped, ok := s.explicitPaths[reqpth]; ok {
